@@ -320,10 +320,10 @@ where
         // found while programming and only shown in the card status: the
         // data-response token says "accepted" all the same. Ask for the status
         // after a multi-block write just as after a single-block one.
-        if self.card_command(CMD13, 0)? != 0x00 {
-            return Err(Error::WriteError);
-        }
-        if self.read_byte()? != 0x00 {
+        // (both bytes of the R2 answer are taken off the bus before judging it)
+        let r1 = self.card_command(CMD13, 0)?;
+        let status = self.read_byte()?;
+        if r1 != 0x00 || status != 0x00 {
             return Err(Error::WriteError);
         }
         Ok(())
